@@ -421,8 +421,46 @@ func randMutation(r *rand.Rand, root protoreflect.MessageDescriptor, o int) map[
 	return s
 }
 
+// mixFromEnv parses VERIF_MIX="op=weight,..." (default: a general-purpose mix).
+func mixFromEnv() ([]string, []int) {
+	spec := os.Getenv("VERIF_MIX")
+	if spec == "" {
+		spec = "mut=11,marshal=1,size=1,unmarshal=2,rt=1,merge=1,clone=1,equal=1,checkinit=1,reset=1,cat=1,umerge=1,scribble=1"
+	}
+	var ops []string
+	var ws []int
+	for _, kv := range strings.Split(spec, ",") {
+		parts := strings.SplitN(kv, "=", 2)
+		w := 1
+		if len(parts) == 2 {
+			w = 0
+			for _, c := range parts[1] {
+				w = w*10 + int(c-'0')
+			}
+		}
+		ops = append(ops, parts[0])
+		ws = append(ws, w)
+	}
+	return ops, ws
+}
+
 func histGen(r *rand.Rand, n int, emit func(core.Case)) {
 	types := typesFromEnv()
+	ops, ws := mixFromEnv()
+	total := 0
+	for _, w := range ws {
+		total += w
+	}
+	pick := func() string {
+		x := r.IntN(total)
+		for i, w := range ws {
+			if x < w {
+				return ops[i]
+			}
+			x -= w
+		}
+		return "mut"
+	}
 	for i := 0; i < n; i++ {
 		name, dyn := splitType(types[r.IntN(len(types))])
 		md := NewObj(name, dyn).Descriptor()
@@ -430,30 +468,33 @@ func histGen(r *rand.Rand, n int, emit func(core.Case)) {
 		for k := 3 + r.IntN(6); k > 0; k-- {
 			o := r.IntN(3)
 			o2 := (o + 1 + r.IntN(2)) % 3
-			switch r.IntN(20) {
-			case 0:
+			o3 := 3 - o - o2
+			switch pick() {
+			case "marshal":
 				steps = append(steps, map[string]any{"op": "marshal", "o": o, "det": r.IntN(2) == 0, "partial": r.IntN(3) != 0})
-			case 1:
+			case "size":
 				steps = append(steps, map[string]any{"op": "size", "o": o, "det": r.IntN(2) == 0})
-			case 2, 3:
+			case "unmarshal":
 				steps = append(steps, map[string]any{"op": "unmarshal", "o": o, "b": core.B(randBytesFor(r, name, dyn)),
 					"merge": r.IntN(3) == 0, "partial": r.IntN(3) != 0, "discard": r.IntN(6) == 0, "nolazy": r.IntN(3) == 0, "limit": 0})
-			case 4:
+			case "rt":
 				steps = append(steps, map[string]any{"op": "rt", "o": o, "o2": o2, "det": r.IntN(2) == 0, "nolazy": r.IntN(3) == 0})
-			case 5:
+			case "merge":
 				steps = append(steps, map[string]any{"op": "merge", "o": o, "o2": o2})
-			case 6:
+			case "clone":
 				steps = append(steps, map[string]any{"op": "clone", "o": o, "o2": o2})
-			case 7:
+			case "equal":
 				steps = append(steps, map[string]any{"op": "equal", "o": o, "o2": o2})
-			case 8:
+			case "checkinit":
 				steps = append(steps, map[string]any{"op": "checkinit", "o": o})
-			case 9:
-				if r.IntN(3) == 0 {
-					steps = append(steps, map[string]any{"op": "reset", "o": o})
-					break
-				}
-				fallthrough
+			case "reset":
+				steps = append(steps, map[string]any{"op": "reset", "o": o})
+			case "cat":
+				steps = append(steps, map[string]any{"op": "cat", "o": o, "o2": o2, "o3": o3, "det": r.IntN(2) == 0, "nolazy": r.IntN(3) == 0})
+			case "umerge":
+				steps = append(steps, map[string]any{"op": "umerge", "o": o, "o2": o2, "nolazy": r.IntN(3) == 0})
+			case "scribble":
+				steps = append(steps, map[string]any{"op": "scribble", "o": o})
 			default:
 				steps = append(steps, randMutation(r, md, o))
 			}
